@@ -294,6 +294,33 @@ def r7(ctx, rep):
     rep.borrowed(C05.r5, ctx, "C09.R7", "the alias decision compares names exactly (an identifier is referenced verbatim)")
 
 
+def r8(ctx, rep):
+    # `"a.b".c` and `a."b.c"` are different identifiers: keyed by their joined text one of them is dropped from the projection
+    import C05
+    rep.borrowed(C05.r8, ctx, "C09.R8", "select items are compared by their whole (qualified) identifier", only=r"^dedupe-key")
+
+
+def r9(ctx, rep):
+    rep.rule("C09.R9", "table names are kept unique as whole identifiers (schema path and name), never by their last part", floor=1)
+    syn = ctx.syn
+    f = syn.fn("postprocess::assign_names", crate="prqlc")
+    # role anchor: the set that the regeneration loop of `table_name.gen()` tests
+    loops = [n for n in walk(f["body"]) if n.get("k") == "while" and any(x.get("k") == "mcall" and x["m"] == "gen" for x in walk(n["body"]))]
+    if not loops:
+        raise AnchorMissing("assign_names: `while <taken> { .. table_name.gen() .. }`")
+    tests = [x for lp in loops for x in walk(lp["c"]) if x.get("k") == "mcall" and x["m"] == "contains"]
+    sets = {show(x["r"]) for x in tests}
+
+    def whole(a):
+        while a.get("k") in ("ref", "paren") or (a.get("k") == "mcall" and a["m"] in ("clone", "as_ref", "unwrap", "cloned", "to_owned") and not a["a"]):
+            a = a["e"] if a.get("k") in ("ref", "paren") else a["r"]
+        return show(a, maxdepth=4)
+    keys = [(x["m"], whole(x["a"][0])) for n in walk(f["body"]) if n.get("k") == "mcall" for x in [n] if x["m"] in ("contains", "insert") and show(x["r"]) in sets and x["a"]]
+    bad = [k for k in keys if not re.fullmatch(r"\w+\.name", k[1])]
+    rep.check(len(keys) >= 2 and not bad, "taken-names:whole-ident", f"the set of taken table names of assign_names is tested / filled with {keys}: every key must be the declaration's whole `name` (an Ident with its "
+              "schema path). Keyed by the last part, `s.t` and `r.t` clash and the user's table `s.t` is renamed to a generated `table_0`, which does not exist", file=f["file"], line=f["l"], fn=f["path"])
+
+
 def run(ctx, rep):
-    for r in (r1, r2, r3, r4, r5, r6, r7):
+    for r in (r1, r2, r3, r4, r5, r6, r7, r8, r9):
         rep.guard(r, ctx)
